@@ -159,16 +159,19 @@ do_pre(struct api *a, const uint8_t *key, KD *kd)
                 if (a->k256) aes_gcm_pre_256(key, kd); else aes_gcm_pre_128(key, kd);
         }
 }
+extern void verif_poison_vregs(void);      /* harness/poison.S: junk in every caller-saved vector register */
+
 static void
 do_oneshot(struct api *a, int enc, int nt, const KD *kd, CTX *c, uint8_t *out, const uint8_t *in, uint64_t len,
            uint8_t *iv, const uint8_t *aad, uint64_t alen, uint8_t *tag, uint64_t tl)
 {
-        if (a->kind == 0) { a->f->oneshot[a->k256][enc][nt](kd, c, out, in, len, iv, aad, alen, tag, tl); return; }
+        if (a->kind == 0) { verif_poison_vregs(); a->f->oneshot[a->k256][enc][nt](kd, c, out, in, len, iv, aad, alen, tag, tl); return; }
         if (a->kind == 1) {
                 int (*fn[2][2][2])(const KD *, CTX *, uint8_t *, const uint8_t *, uint64_t, const uint8_t *, const uint8_t *,
                                    uint64_t, uint8_t *, uint64_t) = {
                         { { isal_aes_gcm_dec_128, isal_aes_gcm_dec_128_nt }, { isal_aes_gcm_enc_128, isal_aes_gcm_enc_128_nt } },
                         { { isal_aes_gcm_dec_256, isal_aes_gcm_dec_256_nt }, { isal_aes_gcm_enc_256, isal_aes_gcm_enc_256_nt } } };
+                verif_poison_vregs();
                 a->rc |= fn[a->k256][enc][nt](kd, c, out, in, len, iv, aad, alen, tag, tl);
                 return;
         }
@@ -176,11 +179,13 @@ do_oneshot(struct api *a, int enc, int nt, const KD *kd, CTX *c, uint8_t *out, c
                             uint8_t *, uint64_t) = {
                 { { aes_gcm_dec_128, aes_gcm_dec_128_nt }, { aes_gcm_enc_128, aes_gcm_enc_128_nt } },
                 { { aes_gcm_dec_256, aes_gcm_dec_256_nt }, { aes_gcm_enc_256, aes_gcm_enc_256_nt } } };
+        verif_poison_vregs();
         fn[a->k256][enc][nt](kd, c, out, in, len, iv, aad, alen, tag, tl);
 }
 static void
 do_init(struct api *a, const KD *kd, CTX *c, uint8_t *iv, const uint8_t *aad, uint64_t alen)
 {
+        verif_poison_vregs();
         if (a->kind == 0) a->f->init[a->k256](kd, c, iv, aad, alen);
         else if (a->kind == 1) a->rc |= a->k256 ? isal_aes_gcm_init_256(kd, c, iv, aad, alen) : isal_aes_gcm_init_128(kd, c, iv, aad, alen);
         else if (a->k256) aes_gcm_init_256(kd, c, iv, aad, alen);
@@ -189,34 +194,38 @@ do_init(struct api *a, const KD *kd, CTX *c, uint8_t *iv, const uint8_t *aad, ui
 static void
 do_update(struct api *a, int enc, int nt, const KD *kd, CTX *c, uint8_t *out, const uint8_t *in, uint64_t len)
 {
-        if (a->kind == 0) { a->f->update[a->k256][enc][nt](kd, c, out, in, len); return; }
+        if (a->kind == 0) { verif_poison_vregs(); a->f->update[a->k256][enc][nt](kd, c, out, in, len); return; }
         if (a->kind == 1) {
                 int (*fn[2][2][2])(const KD *, CTX *, uint8_t *, const uint8_t *, uint64_t) = {
                         { { isal_aes_gcm_dec_128_update, isal_aes_gcm_dec_128_update_nt },
                           { isal_aes_gcm_enc_128_update, isal_aes_gcm_enc_128_update_nt } },
                         { { isal_aes_gcm_dec_256_update, isal_aes_gcm_dec_256_update_nt },
                           { isal_aes_gcm_enc_256_update, isal_aes_gcm_enc_256_update_nt } } };
+                verif_poison_vregs();
                 a->rc |= fn[a->k256][enc][nt](kd, c, out, in, len);
                 return;
         }
         void (*fn[2][2][2])(const KD *, CTX *, uint8_t *, const uint8_t *, uint64_t) = {
                 { { aes_gcm_dec_128_update, aes_gcm_dec_128_update_nt }, { aes_gcm_enc_128_update, aes_gcm_enc_128_update_nt } },
                 { { aes_gcm_dec_256_update, aes_gcm_dec_256_update_nt }, { aes_gcm_enc_256_update, aes_gcm_enc_256_update_nt } } };
+        verif_poison_vregs();
         fn[a->k256][enc][nt](kd, c, out, in, len);
 }
 static void
 do_final(struct api *a, int enc, const KD *kd, CTX *c, uint8_t *tag, uint64_t tl)
 {
-        if (a->kind == 0) { a->f->final[a->k256][enc](kd, c, tag, tl); return; }
+        if (a->kind == 0) { verif_poison_vregs(); a->f->final[a->k256][enc](kd, c, tag, tl); return; }
         if (a->kind == 1) {
                 int (*fn[2][2])(const KD *, CTX *, uint8_t *, uint64_t) = {
                         { isal_aes_gcm_dec_128_finalize, isal_aes_gcm_enc_128_finalize },
                         { isal_aes_gcm_dec_256_finalize, isal_aes_gcm_enc_256_finalize } };
+                verif_poison_vregs();
                 a->rc |= fn[a->k256][enc](kd, c, tag, tl);
                 return;
         }
         void (*fn[2][2])(const KD *, CTX *, uint8_t *, uint64_t) = {
                 { aes_gcm_dec_128_finalize, aes_gcm_enc_128_finalize }, { aes_gcm_dec_256_finalize, aes_gcm_enc_256_finalize } };
+        verif_poison_vregs();
         fn[a->k256][enc](kd, c, tag, tl);
 }
 
